@@ -154,6 +154,26 @@ def inherited_default_revalidated(ctx, rule):
         ctx.ok(rule, f, vn, "guard `%s`: %d abstract cases, falsy non-None defaults are treated like any other default" % (" / ".join(norm(t.ast) for t, _ in tests), n))
 
 
+def slot_event_carries_assigned_value(ctx, rule):
+    """Parameter.__setattr__: the event announcing a change of a Parameter attribute has, as old, what was read before
+    the store and, as new, the very value that was assigned (not something read back through a property, which may be a
+    different view: Selector.objects reads back as a bare list, so a rename of the labels would compare 'unchanged')."""
+    sa = ctx.repo.method(P + "Parameter", "__setattr__")
+    cfg = ctx.facts.cfg(sa)
+    calls = [(n, c) for n in cfg.live_nodes() for c in calls_in(n) if isinstance(c.func, ast.Attribute) and c.func.attr == "_trigger_event" and len(c.args) == 3]
+    ctx.require(calls, "Parameter.__setattr__ no longer calls _trigger_event(attribute, old, new)")
+    vparam = sa.params[2] if len(sa.params) > 2 else "value"
+    for n, c in calls:
+        new_e, old_e = c.args[2], c.args[1]
+        rebinds = [st for st in ast.walk(sa.node) if isinstance(st, (ast.Assign, ast.AugAssign)) and any(isinstance(t, ast.Name) and t.id == vparam for t in (st.targets if isinstance(st, ast.Assign) else [st.target]))]
+        if not (isinstance(new_e, ast.Name) and new_e.id == vparam) or rebinds:
+            ctx.fail(rule, sa, n, "the event's new value is `%s`, not the assigned value `%s`: what watchers of a Parameter attribute are told (and what the changes-only filter compares) is a "
+                                  "read-back that a property may have transformed -- replacing a Selector's objects by the same objects under other names then looks unchanged and notifies nobody" % (
+                                      norm(new_e), vparam), key=sa.qualname + "::event-new-not-assigned-value", input="s.objects = {'x': 1, 'y': 2} after {'a': 1, 'b': 2}: no `objects` event")
+        else:
+            ctx.ok(rule, sa, n, "_trigger_event(attribute, old, %s): the assigned value itself" % vparam)
+
+
 def getstate_complete(ctx, rule):
     """Parameterized.__getstate__ interpreted abstractly: the state handed to pickle / deepcopy holds the instance's
     complete value store -- also the entries that are (still) the very object the class declares as default: that
